@@ -34,6 +34,12 @@ type Prog struct {
 	pathsBusy   map[*Func]bool
 	summaryMemo map[*Func]*Summary
 	retMemo     map[*Func][]*Term
+	predMemo    map[*Func]*Term
+	resEqMemo   map[*Func][]*Term
+	inlineMemo  map[*Func]bool
+	refs        map[*types.Func]int
+	refCaller   map[*types.Func]*Func
+	predDone    map[*Func]bool
 	anchors     map[string]types.Object
 	kt          *KeyTable
 	reach       map[*Func]bool
@@ -105,7 +111,7 @@ func loadProg(dir string, tests bool, goarch string) *Prog {
 	p := &Prog{Dir: dir, Fset: fset, ByPkg: map[string]*packages.Package{},
 		FuncByObj: map[*types.Func]*Func{}, FuncByLit: map[*ast.FuncLit]*Func{},
 		VarOwner: map[*types.Var]*Func{}, pathsMemo: map[*Func][]*Path{}, pathsBusy: map[*Func]bool{},
-		summaryMemo: map[*Func]*Summary{}, retMemo: map[*Func][]*Term{}, anchors: map[string]types.Object{}}
+		summaryMemo: map[*Func]*Summary{}, retMemo: map[*Func][]*Term{}, predMemo: map[*Func]*Term{}, resEqMemo: map[*Func][]*Term{}, inlineMemo: map[*Func]bool{}, predDone: map[*Func]bool{}, anchors: map[string]types.Object{}}
 	nerr := 0
 	for _, pk := range pkgs {
 		for _, e := range pk.Errors {
